@@ -71,7 +71,13 @@ def create_task(coro: Callable[[], Awaitable[Any]], loop: Optional[asyncio.Abstr
 
     async def run_task() -> None:
         with kiwipy.capture_exceptions(future):
-            res = await coro()
+            try:
+                res = await coro()
+            except asyncio.CancelledError:
+                # A cancellation is not an ``Exception`` and is therefore not captured: report it through the future
+                # instead of leaving whoever waits on it hanging
+                future.cancel()
+                raise
             future.set_result(res)
 
     asyncio.run_coroutine_threadsafe(run_task(), loop)
